@@ -30,12 +30,14 @@ SCHEDULE_MEASURE = "structural cells (prefix?, opcode, second byte) visited; req
 COMPONENTS = {
     "real": ["sc62015/arch.py get_instruction_info/get_instruction_text/get_instruction_low_level_il",
              "sc62015/pysc62015/instr/{opcodes,opcode_table,instructions}.py decode/create_instruction/OPCODES",
-             "sc62015/pysc62015/emulator.py Emulator.decode_instruction", "sc62015/pysc62015/cached_decoder.py"],
+             "sc62015/pysc62015/emulator.py Emulator.decode_instruction/execute_instruction (fresh per request and one instance "
+             "living through the whole stream)", "sc62015/pysc62015/cpu.py CPU.decode_instruction/execute_instruction (python backend)",
+             "sc62015/pysc62015/cached_decoder.py"],
     "stub": ["binja_test_mocks (Architecture base class, token and LLIL mocks)"],
 }
 ASSUMPTIONS = ["the emulator's fetch path never rejects (it substitutes a one-byte fallback); it is compared on accepted "
                "encodings only", "the reference interpreter is long-lived per worker and sees requests in another order"]
-PROBES = ["accepted", "rejected", "prefixed", "short_read", "short_read_prefix_only", "trailing_mutated", "repeat_later",
+PROBES = ["live_same", "live_last_byte_changed", "live_exec_after_peek", "accepted", "rejected", "prefixed", "short_read", "short_read_prefix_only", "trailing_mutated", "repeat_later",
           "fetch_past_top", "page_edge_addr"]
 PRES = [0x21, 0x22, 0x23, 0x24, 0x25, 0x26, 0x27, 0x30, 0x31, 0x32, 0x33, 0x34, 0x35, 0x36, 0x37]
 SPACE = 16 * 256 * 256
@@ -158,8 +160,86 @@ def ask(consumer: int, bs: List[int], addr: int) -> list:
         return [f"EXC:{type(e).__name__}", 0, None, str(e)[:80]]
 
 
+class _Machine:
+    """One Emulator and one CPU facade (python backend) over a memory seam whose contents the harness rewrites before
+    every request: the fetch path of a machine that lives through the whole request stream (its decoder caches,
+    look-ahead and register file see every earlier request), next to the fresh instances `ask` builds."""
+
+    def __init__(self):
+        from binja_test_mocks.eval_llil import Memory
+        from sc62015.pysc62015.cpu import CPU
+        from sc62015.pysc62015.emulator import Emulator
+        self.cells: Dict[int, int] = {}
+
+        def rd(x):
+            return self.cells.get(x & 0xFFFFFF, 0xA5)
+
+        def wr(x, v):
+            self.cells[x & 0xFFFFFF] = v & 0xFF
+
+        self.mem = Memory(rd, wr)
+        self.emu = Emulator(self.mem, reset_on_init=False)
+        self.cpu = CPU(self.mem, reset_on_init=False, backend="python")
+
+    def place(self, bs: List[int], addr: int) -> None:
+        self.cells.clear()
+        for i, b in enumerate(bs):
+            self.cells[(addr + i) & 0xFFFFFF] = b
+
+    @staticmethod
+    def _describe(ins) -> list:
+        from binja_test_mocks.tokens import asm_str
+        nm = ins.name()
+        try:
+            text = asm_str(ins.render())
+        except Exception as e:          # placeholders render nothing
+            text = f"<{type(e).__name__}>"
+        return ["accept" if not (nm.startswith("UNK_") or nm.upper().startswith("PRE")) else "reject", int(ins.length()), nm, text]
+
+    def decode(self, which: str, bs: List[int], addr: int) -> list:
+        self.place(bs, addr)
+        try:
+            return self._describe((self.emu if which == "fetch" else self.cpu).decode_instruction(addr))
+        except Exception as e:
+            return [f"EXC:{type(e).__name__}", 0, None, str(e)[:80]]
+
+    def execute(self, which: str, bs: List[int], addr: int, peek: Optional[List[int]] = None) -> list:
+        """Execute the instruction at addr from a fixed register state; with `peek`, the machine first looks at other
+        bytes at the same address (a debugger's disassembly view, a trace hook) which are then replaced."""
+        from sc62015.pysc62015.emulator import RegisterName as R
+        m = self.emu if which == "fetch" else self.cpu
+        try:
+            if peek is not None:
+                self.place(peek, addr)
+                m.decode_instruction(addr)
+            self.place(bs, addr)
+            for name, val in (("BA", 0x1234), ("I", 1), ("X", 0x40000), ("Y", 0x40100), ("U", 0x40200), ("S", 0x40300),
+                              ("F", 0), ("PC", addr)):
+                m.regs.set(getattr(R, name), val)
+            try:
+                m.state.halted = False
+            except Exception:
+                pass
+            info = m.execute_instruction(addr)
+            ins = getattr(info, "instruction", None)
+            done = self._describe(ins) if ins is not None else None
+            return ["ran", done, m.regs.get(R.PC) & 0xFFFFF, m.regs.get(R.BA) & 0xFFFF, sorted(self.cells.items())[:40]]
+        except Exception as e:
+            return [f"EXC:{type(e).__name__}", str(e)[:60]]
+
+
+def allr_ok(allr) -> bool:
+    """Executed only when every consumer accepts the bytes, and never for instructions that stop or restart the
+    machine or loop on a counter (RESET, block instructions are left to C06/C07)."""
+    if not all(x[0] == "accept" for x in allr):
+        return False
+    m = (allr[3][2] or "").upper()
+    return not (m.startswith("RESET") or m.endswith("L") or m in ("MVLD", "WAIT", "HALT", "OFF"))
+
+
 def _run_stream(scn: Dict[str, Any]) -> List[list]:
     out = []
+    live = _Machine()
     for pos, k in enumerate(scn["order"]):
         it = scn["items"][k]
         bs = list(it["bytes"])
@@ -173,6 +253,23 @@ def _run_stream(scn: Dict[str, Any]) -> List[list]:
             mutated = bs[:ln] + [b ^ scn["mut"][pos] ^ 0xFF for b in bs[ln:]]
             rec["trail"] = ask(c, mutated, it["addr"])
             rec["short"] = [[cut, ask(cc, bs[:cut], it["addr"])] for cut in range(1, ln) for cc in (0, 1, 2)]
+        # the long-lived machine against fresh ones: the same bytes, then the same address with only the last byte
+        # of the instruction changed (what a decoder cache keyed too coarsely would miss), then — every fourth
+        # request — executed after the machine had looked at the other variant at that address
+        lv = []
+        variant = list(bs)
+        if ln >= 2:
+            variant[ln - 1] ^= (scn["mut"][pos] | 1)
+        for which in ("fetch", "cpu"):
+            lv.append([which, "same", live.decode(which, bs, it["addr"]), _Machine().decode(which, bs, it["addr"])])
+            if ln >= 2:
+                lv.append([which, "last_byte_changed", live.decode(which, variant, it["addr"]),
+                           _Machine().decode(which, variant, it["addr"])])
+        if ln >= 1 and pos % 4 == 0 and allr_ok(rec["all"]):
+            which = "fetch" if pos % 8 == 0 else "cpu"
+            lv.append([which, "exec_after_peek", live.execute(which, bs, it["addr"], peek=variant),
+                       _Machine().execute(which, bs, it["addr"])])
+        rec["live"] = lv
         out.append(rec)
     return out
 
@@ -304,6 +401,21 @@ def check(scn: Dict[str, Any], hist: Dict[str, Any]) -> List[Dict[str, Any]]:
             if refrec[ci] != allr[ci]:
                 V("history_dependence", pos, f"{names[ci]} on {hx} at {addr:#x}: this process {allr[ci][:3]}, reference "
                   f"interpreter {refrec[ci][:3]}", consumer=names[ci], against="reference_process")
+        # the long-lived machine must answer as a fresh one does
+        for which, what, got, fresh in rec.get("live") or []:
+            probe("live_" + what)
+            nm = {"fetch": "fetch_live", "cpu": "cpu_facade"}[which]
+            for side, res in (("live", got), ("fresh", fresh)):
+                if isinstance(res[0], str) and res[0].startswith("EXC") and what != "exec_after_peek":
+                    V("unexpected_exception", pos, f"{nm} ({side} machine) raised {res[0][4:]} ({res[-1]}) on {hx} at {addr:#x}",
+                      consumer=nm, exc=res[0][4:])
+            if got != fresh:
+                V("history_dependence", pos, f"{nm} {what} on {hx} at {addr:#x}: the machine that lived through the stream says "
+                  f"{str(got)[:120]}, a fresh one {str(fresh)[:120]}", consumer=nm, against="fresh_machine", what=what)
+            if what == "same" and which == "cpu" and info[0] == "accept" and not (isinstance(fresh[0], str) and fresh[0].startswith("EXC")):
+                if fresh[0] != "accept" or fresh[1] != info[1]:
+                    V("consumer_disagree", pos, f"info accepts {hx} at {addr:#x} with length {info[1]}, the CPU facade's fetch says "
+                      f"{fresh[0]} length {fresh[1]}", which="cpu_facade", opcode=opc)
         # trailing bytes
         if rec["trail"] is not None:
             probe("trailing_mutated")
